@@ -8,11 +8,16 @@ import numpy as np
 from . import model_rf as M
 
 
-def read_vs_model(reader, cfg, model, a, b, sub_channel=None, check_fill=True, allow_fill=False):
-    """-> list of (prop, cls, msg). Compares reader.read(a,b) with the model."""
+BOUND_TYPES = {"i8": np.int64, "u8": np.uint64}
+
+
+def read_vs_model(reader, cfg, model, a, b, sub_channel=None, check_fill=True, allow_fill=False, btype=None):
+    """-> list of (prop, cls, msg). Compares reader.read(a,b) with the model.
+    btype: pass the bounds as numpy integer scalars of that type (what np.arange / index tables hand out)"""
     errs = []
     try:
-        got = reader.read(a, b, cfg.channel, sub_channel)
+        conv = BOUND_TYPES.get(btype, int) if (btype != "i8" or b < 2**63) else int
+        got = reader.read(conv(a), conv(b), cfg.channel, sub_channel)
     except Exception as e:  # noqa
         return [("C01", "read_raises", "read(%d,%d) raised %s: %s" % (a, b, type(e).__name__, str(e)[:200]))]
     exp = model.expected_blocks(a, b)
